@@ -116,9 +116,10 @@ def session():
     s2 = copy.copy(s)
     s2.ev = copy.deepcopy(s.ev)
     s2.ev[10]["arr"][0] = 999999
+    first = 1 + min(i for i, e in enumerate(s2.ev) if e["arr"] is s2.ev[10]["arr"])      # events of one call share their snapshot
     rep = Rep("C07", "quick", 0, "model_checking")
     rej = SC.judge(rep, [(s2, {})], "self1", None)
-    expect("SessionTrace rejects a changed caller-array content id at exactly that event", any(l == 11 and c[0] == "caller_array_modified_by" for _, _, l, _, c in rej), [(l, c) for _, _, l, _, c in rej][:3])
+    expect("SessionTrace rejects a changed caller-array content id at exactly that event", any(l == first and c[0] == "caller_array_modified_by" for _, _, l, _, c in rej) and not any(l < first for _, _, l, _, c in rej), [(l, c) for _, _, l, _, c in rej][:3])
     s3 = copy.copy(s)
     s3.ev = copy.deepcopy(s.ev)
     d = [i for i, e in enumerate(s3.ev) if e["op"] == "dist"]
